@@ -184,6 +184,12 @@ func shiftDateVal(v interface{}, clk, delta int64) interface{} {
 		if d := int64(x) - clk; d > -48*3600e3 && d < 48*3600e3 {
 			return primitive.DateTime(int64(x) + delta)
 		}
+		for _, ttl := range apiBigTTLs {
+			// dates generated around clock − (a large lifetime)
+			if d := int64(x) - (clk - int64(ttl)*1000); d > -48*3600e3 && d < 48*3600e3 {
+				return primitive.DateTime(int64(x) + delta)
+			}
+		}
 	case bson.D:
 		for i := range x {
 			x[i].Value = shiftDateVal(x[i].Value, clk, delta)
